@@ -871,15 +871,25 @@ def tie_tripartite(ctx):
         common.compare(ctx, ops, impl, model, key=lambda op: 'abc-' + op.split(' ')[1])
 
 
+
+def _guarded_part(ctx, part, tie):
+    """robustness of the check: an exception escaping a tie / probe part (signature change, missing attribute, shape error in the
+    implementation …) is reported as a broken correspondence resp. as a failure with the traceback — the check never aborts (exit 2)"""
+    import traceback
+    try:
+        part(ctx)
+    except Exception as e:
+        tb = traceback.format_exc()[-1500:]
+        if tie:
+            ctx.disagree(f'%s %s (whole part)' % (ctx.pid, part.__name__), 'completes', f'raised {type(e).__name__}: {e}')
+            ctx.note(f'{part.__name__} raised: ' + tb)
+        else:
+            ctx.fail('probe-exception', f'{part.__name__} raised {type(e).__name__}: {e}', dict(op=part.__name__, traceback=tb))
+
+
 def correspondence(ctx):
-    tie_tables(ctx)
-    tie_projection(ctx)
-    tie_structure(ctx)
-    tie_bipartite(ctx)
-    tie_numrange(ctx)
-    tie_decisions(ctx)
-    tie_level_k(ctx)
-    tie_tripartite(ctx)
+    for part in (tie_tables, tie_projection, tie_structure, tie_bipartite, tie_numrange, tie_decisions, tie_level_k, tie_tripartite):
+        _guarded_part(ctx, part, tie=True)
 
 
 # ---------------------------------------------------------------------------
@@ -990,6 +1000,13 @@ def _check_decomposition(ctx, cls, n1, n2, field, gens, amb, k, tag, extra_repla
     c = g[0, 0].real if g.size else 1.0
     if g.size and (np.abs(g - c * np.eye(len(g))).max() > 1e-9 or c < 1e-3):
         ctx.fail('decomp-orthogonal', f'basis not mutually orthogonal with one common norm: max deviation {np.abs(g - c * np.eye(len(g))).max():.3g} {where}', replay); ok = False
+    # the normalisation consumers rely on: detect_real_matrix_subspace_rank_one builds `projector = B^T B` from these rows and is sound only
+    # if that dominates the orthogonal projector, i.e. common squared norm >= 1 (unchanged tree: 1 for R, C; 2 for R_T, C_T, C_H, R_c; 4 for R_cT)
+    if g.size:
+        ctx.extra.setdefault('basis_squared_norm_by_class', {})[_EXPECT[cls]] = round(float(c), 9)
+        if c < 1 - 1e-9:
+            ctx.fail('decomp-norm-below-one', f'returned basis has common squared norm {c:.6g} < 1: the projector B^T B that detect_real_matrix_subspace_rank_one '
+                     f'builds from it is smaller than the orthogonal projector and its bound is no certificate {where}', replay); ok = False
     # span: every generator is reproduced by its projection on the returned basis, relative to its own norm
     nrm = np.linalg.norm(vi, axis=1)
     if vb.shape[0]:
@@ -1140,6 +1157,34 @@ def probe_planted(ctx):
             ctx.extra['rankone_min_ub_minus_1'] = min(ctx.extra['rankone_min_ub_minus_1'], float(ub) - 1.0)
     ms = np.stack([np.eye(2), np.array([[0, -1.0], [1, 0]])])       # span_R(1, iY): arXiv 2212.12811 example 3, upper bound 1/2
     ctx.count('rankone-positive-control-' + str(not detect_real_matrix_subspace_rank_one(ms)[0]))
+    # per structure class: all generators real *symmetric* (branch R_T of get_matrix_orthogonal_basis) containing v v^T, and mixes of
+    # symmetric generators with general ones (branch R); 1..3 generators, dims 2..5
+    for n in (2, 3, 4, 5):
+        for N in (1, 2, 3):
+            for kind in ('symmetric', 'mixed'):
+                for _ in range(2 if ctx.quick() else 6):
+                    v = rng.normal(size=n)
+                    gens = [np.outer(v, v)]
+                    for j in range(N - 1):
+                        a = rng.normal(size=(n, n))
+                        gens.append(a + a.T if (kind == 'symmetric' or j % 2 == 0) else a)
+                    gens = np.stack(gens)
+                    if kind == 'mixed' and N == 1:
+                        continue
+                    T = rng.normal(size=(N, N)) + 2 * np.eye(N)
+                    mixed = np.tensordot(T, gens, axes=(1, 0))
+                    if kind == 'symmetric' and rng.integers(0, 2):
+                        mixed = np.linalg.qr(mixed.reshape(N, -1).T)[0].T.reshape(N, n, n)      # orthonormal, still symmetric
+                    replay = dict(op='detect_real_matrix_subspace_rank_one', kind=kind + ' generators with a planted v v^T', n=n, N=N, basis=mixed.tolist())
+                    try:
+                        tag, ub = detect_real_matrix_subspace_rank_one(mixed)
+                    except Exception as e:
+                        ctx.fail('rankone-exception', f'detect_real_matrix_subspace_rank_one raised {type(e).__name__}: {e}', replay); continue
+                    if not tag:
+                        ctx.fail('rankone-unsound', f'detect_real_matrix_subspace_rank_one certifies "no rank-one element" (upper_bound={ub!r}) for a real subspace of '
+                                 f'{kind} {n}x{n} generators (dim {N}) that contains v v^T', replay)
+                    else:
+                        ctx.probe_ok(('rank1-' + kind, n, N))
     # tripartite: planted product vector
     for dA, dB, dC, N, k in [(2, 2, 2, 2, 1), (2, 2, 2, 3, 1), (2, 2, 2, 2, 2), (2, 2, 3, 3, 1), (2, 3, 3, 2, 2)] + ([] if ctx.quick() else [(3, 3, 3, 3, 1), (2, 2, 2, 2, 3), (2, 2, 3, 4, 2), (3, 3, 3, 2, 2)]):
         for cplx in (False, True):
@@ -1220,6 +1265,165 @@ def probe_numrange(ctx):
 
 
 
+# ---------------------------------------------------------------------------
+# hardening: aliasing / repeatability / dtype / layout / boundary inputs
+# ---------------------------------------------------------------------------
+def _snap(x):
+    if isinstance(x, np.ndarray):
+        return ('a', x.shape, str(x.dtype), x.tobytes())
+    if isinstance(x, (list, tuple)):
+        return ('l', tuple(_snap(y) for y in x))
+    return ('o', repr(x))
+
+
+def _same(a, b, tol=0.0):
+    if isinstance(a, (tuple, list)) and isinstance(b, (tuple, list)):
+        return len(a) == len(b) and all(_same(x, y, tol) for x, y in zip(a, b))
+    if isinstance(a, (str, bool, np.bool_)) or a is None:
+        return a == b
+    a, b = np.asarray(a), np.asarray(b)
+    if a.shape != b.shape:
+        return False
+    if a.size == 0:
+        return True
+    if tol == 0.0:
+        return bool(np.array_equal(a, b, equal_nan=True))
+    return bool(np.abs(a.astype(np.complex128) - b.astype(np.complex128)).max() <= tol * max(1.0, float(np.abs(b).max())))
+
+
+def hard_call(ctx, name, f, args, replay, kwargs=None, same=None):
+    """call `f(*args)` twice on the very same argument objects: arguments must be bit-identical afterwards (no in-place edit of the
+    caller's data), both results identical (`same`: comparison for routines built on ARPACK, whose start vector is random: equal up to 1e-9 /
+    equal support values); an exception becomes a failure with the input, never an abort"""
+    kwargs = kwargs or {}
+    before = [_snap(a) for a in args]
+    try:
+        r1 = f(*args, **kwargs)
+        mid = [_snap(a) for a in args]
+        r2 = f(*args, **kwargs)
+    except Exception as e:
+        ctx.fail('hardening-exception', f'{name} raised {type(e).__name__}: {e}', replay); return None
+    if mid != before or [_snap(a) for a in args] != before:
+        ctx.fail('aliasing', f'{name} modified an argument of the caller in place', replay); return None
+    if not (same or _same)(r1, r2):
+        ctx.fail('repeat-call', f'{name}: two calls on the same arguments give different results', replay); return None
+    ctx.probe_ok()
+    return r1
+
+
+def layouts(x):
+    """the same values as C-contiguous, Fortran-ordered and as a non-contiguous strided view"""
+    x = np.ascontiguousarray(x)
+    big = np.zeros(tuple(2 * n for n in x.shape), dtype=x.dtype)
+    big[tuple(slice(None, None, 2) for _ in x.shape)] = x
+    return [('C', x), ('F', np.asfortranarray(x)), ('strided-view', big[tuple(slice(None, None, 2) for _ in x.shape)])]
+
+
+def probe_hardening(ctx):
+    from numqi.matrix_space import (get_matrix_orthogonal_basis, has_rank_hierarchical_method, detect_real_matrix_subspace_rank_one,
+                                    is_ABC_completely_entangled_subspace, get_matrix_numerical_range, get_matrix_subspace_example,
+                                    tensor2d_project_to_antisym_basis)
+    from numqi.matrix_space import _hierarchy as H
+    rng = np.random.default_rng(ctx.np_seed + 18)
+    # --- get_matrix_orthogonal_basis: layouts, integer dtype, a zero generator in the list, float32 (independent generators only: the
+    #     library's absolute threshold 1e-10 is below float32 resolution, so float32 with dependent generators is outside the claim)
+    for cls in _EXPECT:
+        n1, n2 = (3, 3) if cls not in ('R', 'C(real)', 'C', 'R_c') else (2, 3)
+        field, gens, amb, k = _class_generators(rng, cls, n1, n2, 2, 1)
+        gi = np.round(gens * 4)           # integer-valued generators of the same class
+        base = hard_call(ctx, f'get_matrix_orthogonal_basis[{cls}]', get_matrix_orthogonal_basis, (gi, field), dict(op='gmob', cls=cls, generators_re=gi.real.tolist(), generators_im=np.asarray(gi.imag).tolist()))
+        if base is None:
+            continue
+        variants = [(nm, a) for nm, a in layouts(gi)[1:]]
+        if not np.iscomplexobj(gi):
+            variants.append(('int64', gi.astype(np.int64)))
+        variants.append(('with a zero generator', np.concatenate([gi, np.zeros_like(gi[:1])])))
+        for nm, a in variants:
+            replay = dict(op='get_matrix_orthogonal_basis', cls=cls, variant=nm, generators_re=np.asarray(a).real.tolist(), generators_im=np.asarray(np.asarray(a).imag).tolist())
+            r = hard_call(ctx, f'get_matrix_orthogonal_basis[{cls}, {nm}]', get_matrix_orthogonal_basis, (a, field), replay)
+            if r is None:
+                continue
+            if r[2] != base[2] or r[0].shape != base[0].shape or r[1].shape != base[1].shape:
+                ctx.fail('hardening-variant', f'get_matrix_orthogonal_basis[{cls}]: input as {nm} gives class {r[2]}, shapes {r[0].shape},{r[1].shape} instead of {base[2]}, {base[0].shape},{base[1].shape}', replay)
+            else:
+                # same subspace: projector on the returned basis
+                pj = lambda b: (lambda v: v.T @ v.conj())(b.reshape(b.shape[0], -1))
+                if np.abs(pj(r[0]) - pj(base[0])).max() > 1e-9:
+                    ctx.fail('hardening-variant', f'get_matrix_orthogonal_basis[{cls}]: input as {nm} spans a different subspace (projector deviation {np.abs(pj(r[0]) - pj(base[0])).max():.3g})', replay)
+                else:
+                    ctx.probe_ok(('hard-gmob', cls, nm))
+        f32 = gens[:2].astype(np.complex64 if np.iscomplexobj(gens) else np.float32)
+        r = hard_call(ctx, f'get_matrix_orthogonal_basis[{cls}, float32]', get_matrix_orthogonal_basis, (f32, field), dict(op='gmob', cls=cls, variant='float32'))
+        if r is not None and (r[0].shape[0] != 2 or r[2] != _EXPECT[cls]):
+            ctx.fail('hardening-variant', f'get_matrix_orthogonal_basis[{cls}]: two independent float32 generators give {r[0].shape[0]} basis elements, class {r[2]}', dict(op='gmob', cls=cls, variant='float32', generators_re=f32.real.tolist()))
+    # --- rank certificates: decision must not depend on container / layout / dtype
+    ex1 = get_matrix_subspace_example('hierarchy-ex1')[0]
+    ex1 = np.linalg.qr(ex1.reshape(ex1.shape[0], -1).T)[0].T.reshape(ex1.shape)
+    planted = _planted_bipartite(rng, 3, 3, 2, 1, False)[0]
+    for nm0, basis, want in (('hierarchy-ex1', ex1, True), ('planted rank-1', planted, False)):
+        for nm, a in layouts(basis) + [('list', list(basis)), ('float32', basis.astype(np.float32)), ('complex128 zero imag', basis.astype(np.complex128))]:
+            replay = dict(op='has_rank_hierarchical_method', input=nm0, variant=nm, basis=np.asarray(basis).tolist())
+            r = hard_call(ctx, f'has_rank_hierarchical_method[{nm0}, {nm}]', lambda x: bool(has_rank_hierarchical_method(x, 2, hierarchy_k=1)), (a,), replay)
+            if r is not None and r != want:
+                ctx.fail('hardening-variant', f'has_rank_hierarchical_method on {nm0} given as {nm} answers {r}, as a float64 array {want}', replay)
+    ival = np.stack([np.eye(3, dtype=np.int64), np.diag([1, -1, 0]).astype(np.int64)])
+    r = hard_call(ctx, 'has_rank_hierarchical_method[int64]', lambda x: bool(has_rank_hierarchical_method(x, 2)), (ival,), dict(op='hier', variant='int64', basis=ival.tolist()))
+    r2 = hard_call(ctx, 'has_rank_hierarchical_method[float of int64]', lambda x: bool(has_rank_hierarchical_method(x, 2)), (ival.astype(np.float64),), dict(op='hier', basis=ival.tolist()))
+    if r is not None and r2 is not None and r != r2:
+        ctx.fail('hardening-variant', f'has_rank_hierarchical_method: int64 input {r}, float64 input {r2}', dict(op='hier', basis=ival.tolist()))
+    det_same = lambda a, b: bool(a[0]) == bool(b[0]) and abs(a[1] - b[1]) <= 1e-9          # eigsh (ARPACK) inside for dimA*dimB >= 5
+    for nm0, ms in (('span(1, iY)', np.stack([np.eye(2), np.array([[0, -1.0], [1, 0]])])), ('planted rank-1', planted)):
+        base = hard_call(ctx, f'detect_real_matrix_subspace_rank_one[{nm0}]', detect_real_matrix_subspace_rank_one, (ms,), dict(op='detect', input=nm0, basis=ms.tolist()), same=det_same)
+        for nm, a in layouts(ms)[1:] + [('float32', ms.astype(np.float32))] + ([('int64', ms.astype(np.int64))] if nm0.startswith('span') else []):
+            replay = dict(op='detect_real_matrix_subspace_rank_one', input=nm0, variant=nm, basis=ms.tolist())
+            r = hard_call(ctx, f'detect_real_matrix_subspace_rank_one[{nm0}, {nm}]', detect_real_matrix_subspace_rank_one, (a,), replay, same=det_same)
+            if base is not None and r is not None and (bool(r[0]) != bool(base[0]) or abs(r[1] - base[1]) > (1e-5 if nm == 'float32' else 1e-9)):
+                ctx.fail('hardening-variant', f'detect_real_matrix_subspace_rank_one on {nm0} given as {nm}: {r}, as float64 {base}', replay)
+    q3 = np.linalg.qr(rng.normal(size=(12, 2)))[0].T.reshape(2, 2, 3, 2)
+    hard_call(ctx, 'is_ABC_completely_entangled_subspace[list]', lambda x: bool(is_ABC_completely_entangled_subspace(x)), (list(q3),), dict(op='abc', basis=q3.tolist()))
+    hard_call(ctx, 'tensor2d_project_to_antisym_basis', tensor2d_project_to_antisym_basis, (list(planted), [0, 1]), dict(op='proj', basis=planted.tolist()))
+    # --- numerical range: dtype / layout; degenerate and boundary matrices (support function attained whatever eigenvector is returned)
+    A = rng.integers(-3, 4, size=(4, 4)) + 1j * rng.integers(-3, 4, size=(4, 4))
+    base = hard_call(ctx, 'get_matrix_numerical_range', get_matrix_numerical_range, (A.astype(np.complex128), 7), dict(op='nr', A_re=A.real.tolist(), A_im=A.imag.tolist()))   # n = 4: dense eigh, deterministic
+    for nm, a, tol in [(n_, x, 1e-9) for n_, x in layouts(A.astype(np.complex128))[1:]] + [('complex64', A.astype(np.complex64), 1e-4), ('int64 real part', A.real.astype(np.int64), None)]:
+        r = hard_call(ctx, f'get_matrix_numerical_range[{nm}]', get_matrix_numerical_range, (a, 7), dict(op='nr', variant=nm, A_re=np.asarray(a).real.tolist(), A_im=np.asarray(np.asarray(a).imag).tolist()))
+        ref = base if tol is not None else hard_call(ctx, 'get_matrix_numerical_range[float of int]', get_matrix_numerical_range, (a.astype(np.float64), 7), dict(op='nr'))
+        if r is not None and ref is not None:
+            th = np.linspace(0, 2 * np.pi, 7)
+            d = np.abs((np.exp(1j * th) * (r - ref)).real).max()         # support values agree (the points themselves may differ on flat parts)
+            if d > (tol or 1e-9) * max(1.0, np.abs(ref).max()):
+                ctx.fail('hardening-variant', f'get_matrix_numerical_range given as {nm}: support values differ by {d:.3g}', dict(op='nr', variant=nm, A_re=np.asarray(a).real.tolist()))
+    for nm, M in [('zero', np.zeros((3, 3), dtype=complex)), ('identity', np.eye(4, dtype=complex)), ('Hermitian', (lambda z: z + z.conj().T)(rng.normal(size=(4, 4)) + 1j * rng.normal(size=(4, 4)))),
+                  ('normal, repeated eigenvalue', np.diag([1 + 1j, 1 + 1j, -1, 0.5j]).astype(complex)), ('gap 1e-12', np.diag([1, 1 - 1e-12, 0.3, -1]).astype(complex)),
+                  ('gap 1e-8', np.diag([1j, 1j * (1 - 1e-8), 0.2, -0.5]).astype(complex)), ('size 6 repeated', np.diag([2, 2, 2, 1j, 1j, -1]).astype(complex))]:
+        replay = dict(op='get_matrix_numerical_range', matrix=nm, A_re=M.real.tolist(), A_im=M.imag.tolist(), num_point=9)
+        th9 = np.linspace(0, 2 * np.pi, 9)
+        pts = hard_call(ctx, f'get_matrix_numerical_range[{nm}]', get_matrix_numerical_range, (M, 9), replay,
+                        same=lambda a, b: np.abs((np.exp(1j * th9) * (a - b)).real).max() <= 1e-9)      # degenerate top eigenvalue: any eigenvector, same support value
+        if pts is None:
+            continue
+        worst = 0.0
+        for t, z in zip(np.linspace(0, 2 * np.pi, 9), pts):
+            Hm = (np.exp(1j * t) * M + np.exp(-1j * t) * M.conj().T) / 2
+            worst = max(worst, abs((np.exp(1j * t) * z).real - np.linalg.eigvalsh(Hm)[-1]))
+        if worst > 1e-8:
+            ctx.fail('numrange-support', f'numerical range of a {nm} matrix: a returned point misses the support function by {worst:.3g}', replay)
+        else:
+            ctx.probe_ok(('nr-degenerate', nm))
+    # --- histories: memoised tables are shared objects; after interleaved calls of different sizes they must still equal a fresh computation
+    snap0 = [(_snap(list(H.get_antisymmetric_basis_index(4, t))), t) for t in (2, 3, (0, 0, 1), (0, 1, 1))]
+    for rank, k, dims in [(2, 1, (3, 3)), (3, 2, (3, 4)), (2, 3, (2, 2)), (2, 1, (3, 3)), (3, 1, (4, 4))]:
+        B = _planted_bipartite(rng, dims[0], dims[1], 2, rank - 1, False)[0]
+        hard_call(ctx, f'has_rank_hierarchical_method[history rank={rank} k={k}]', lambda x: bool(has_rank_hierarchical_method(x, rank, hierarchy_k=k)), (B,), dict(op='hier-history', rank=rank, k=k, basis=B.tolist()))
+    for s0, t in snap0:
+        fresh = H.get_antisymmetric_basis_index.__wrapped__(4, t) if hasattr(H.get_antisymmetric_basis_index, '__wrapped__') else H.get_antisymmetric_basis_index(4, t)
+        if _snap(list(H.get_antisymmetric_basis_index(4, t))) != s0 or _snap(list(fresh)) != s0:
+            ctx.fail('stale-cache', f'get_antisymmetric_basis_index(4, {t}): the memoised table changed during the run (or differs from a fresh computation)', dict(op='cache', arg=str(t)))
+        else:
+            ctx.probe_ok(('cache', str(t)))
+
+
+
 CORPUS = os.path.join(common.VERIF, 'corpus', 'C20')
 
 
@@ -1268,11 +1472,8 @@ def replay_corpus(ctx):
 
 
 def probe(ctx):
-    replay_corpus(ctx)
-    probe_decomposition(ctx)
-    probe_decomposition_graded(ctx)
-    probe_planted(ctx)
-    probe_numrange(ctx)
+    for part in (replay_corpus, probe_decomposition, probe_decomposition_graded, probe_planted, probe_numrange, probe_hardening):
+        _guarded_part(ctx, part, tie=False)
 
 
 def search(ctx, hints):
